@@ -323,14 +323,17 @@ def run(tier):
                 if k not in uniq:
                     uniq[k] = lr
                     order.append(lr)
-            small = [lr for lr in order if len(lr["page"]) <= (400 if quick else 3000)]
+            small = [lr for lr in order if len(lr["page"]) <= (400 if quick else 2000)]
             # several TLC processes side by side, pages dealt out by length (a single process took over half an hour on the
-            # thorough tier's 3000-line pages)
+            # thorough tier's longest pages; two 3000-line pages alone took over an hour, so 2000 lines is the cap)
             from concurrent.futures import ThreadPoolExecutor
-            nchunk = 1 if quick else 12
+            nchunk = 1 if quick else 14
             chunks = [[] for _ in range(nchunk)]
-            for k_, lr in enumerate(sorted(small, key=lambda x: -len(x["page"]))):
-                chunks[k_ % nchunk].append(lr)
+            load_ = [0] * nchunk
+            for lr in sorted(small, key=lambda x: -len(x["page"])):         # TLC's work on a page grows with the square of its length
+                k_ = load_.index(min(load_))
+                chunks[k_].append(lr)
+                load_[k_] += len(lr["page"]) ** 2 + 1000
             chunks = [c_ for c_ in chunks if c_]
 
             def one(ci):
